@@ -168,8 +168,11 @@ pub fn gen_pro(r: &mut Rng, thorough: bool, cx: &mut Ctx) {
         let nops = r.range(1, 60);
         let mut l = vec![own as u64, nops];
         let mut issued: Vec<u64> = vec![]; let mut label = 100u64;
+        let mut prev_op: Option<L> = None;
         for _ in 0..nops {
             let mut b: L = vec![];
+            // the previous tick / send / exchange once more, verbatim (the same packet sent or received twice in a row)
+            if let Some(po) = prev_op.clone() { if r.chance(1, 8) { push_list(&mut l, &po); continue; } }
             match r.below(12) {
                 10 | 11 => {
                     // an exchange in the middle of the history: a few replies, packets that do not match (skipped), now and then a link error after a match
@@ -210,6 +213,7 @@ pub fn gen_pro(r: &mut Rng, thorough: bool, cx: &mut Ctx) {
                        for _ in 0..r.below(4) { b.push(if r.chance(1, 3) { r.pick(&ERR_CODES) } else { 0 }); } }
             }
             push_list(&mut l, &b);
+            prev_op = if b[0] >= 2 { Some(b) } else { None };
         }
         cx.emit(&l);
     }
